@@ -36,6 +36,7 @@ import (
 //                                           TSDBStore.Series with maxBytesPerFrame = maxBytes; sizes are the protobuf
 //                                           sizes (inputs of the model, verified against the real ones)
 //                                                                                           -> frames `i+i|i|…` of chunk indices
+//   st.ext <blocks> <new ext> <start> <end> <matchers> <without> <label>    (c07.go) the TSDB store before and after SetExtLset
 //   st.series <kind> <blocks> <mint> <maxt> <matchers> <without> <skip>
 //                                           kind = tsdb[+f<maxBytesPerFrame>] (first block, served by TSDBStore) |
 //                                                  bkt[+<cfg>] (all blocks, served by BucketStore)
@@ -511,6 +512,8 @@ func execC08(c *hlib.Ctx, tok []string) string {
 		return execFrmSplit(c, tok)
 	case "st.series":
 		return execStSeries(c, tok)
+	case "st.ext":
+		return execStExt(c, tok)
 	}
 	return "bad-op"
 }
@@ -841,6 +844,9 @@ func genC08Stores(c *hlib.Ctx, nStores, nReq int) {
 			nb, minExt = r.Range(1, 3), 1
 		}
 		blocks := g.genBlocks(nb, 12, minExt)
+		if kind == "tsdb" {
+			genStExt(c, g, blocks, c.N(6, 12)) // external labels replaced at runtime
+		}
 		for q := 0; q < nReq; q++ {
 			ms := g.genMatchers(blocks)
 			mint, maxt := genRange(r, blocks)
